@@ -1020,7 +1020,11 @@ class BlockwiseRequest(BaseUnicastRequest, interfaces.Request):
                 log.warning(
                     "Server answered Observe in early Block1 phase, cancelling the erroneous observation."
                 )
-                blockrequest.observe.cancel()
+                if (
+                    blockrequest.observation is not None
+                    and not blockrequest.observation.cancelled
+                ):
+                    blockrequest.observation.cancel()
 
             if block1.more:
                 # FIXME i think my own server is dowing this wrong
